@@ -432,6 +432,35 @@ func (p *CodeBuilder) Slice(slice3 bool, src ...ast.Node) *CodeBuilder { // a[i:
 			code, pos, end := p.loadExpr(x.Src)
 			p.panicCodeErrorf(pos, end, "cannot slice %s (type %v)", code, typ)
 		}
+	case nil:
+		code, pos, end := p.loadExpr(x.Src)
+		p.panicCodeErrorf(pos, end, "%s (no value) used as value", code)
+	default:
+		switch u := getUnderlying(p.pkg, typ).(type) {
+		case *types.Slice:
+			// named slice type: the result has the same type
+		case *types.Array:
+			typ = types.NewSlice(u.Elem())
+		case *types.Basic:
+			if u.Kind() != types.String {
+				code, pos, end := p.loadExpr(x.Src)
+				p.panicCodeErrorf(pos, end, "cannot slice %s (type %v)", code, typ)
+			}
+			if slice3 {
+				code, pos, end := p.loadExpr(srcExpr)
+				p.panicCodeErrorf(pos, end, "invalid operation %s (3-index slice of string)", code)
+			}
+		case *types.Pointer:
+			tt, ok := getUnderlying(p.pkg, u.Elem()).(*types.Array)
+			if !ok {
+				code, pos, end := p.loadExpr(x.Src)
+				p.panicCodeErrorf(pos, end, "cannot slice %s (type %v)", code, typ)
+			}
+			typ = types.NewSlice(tt.Elem())
+		default:
+			code, pos, end := p.loadExpr(x.Src)
+			p.panicCodeErrorf(pos, end, "cannot slice %s (type %v)", code, typ)
+		}
 	}
 	var exprMax ast.Expr
 	if slice3 {
